@@ -214,10 +214,18 @@ def predicates(md):
     P = [("unset", None, None), ("face0", 0.0, lambda x: np.isclose(x, 0.0)), ("half", None, None)]
     half = lambda x: x >= 0.5  # noqa
     out = []
-    for combo in itertools.product(range(3), repeat=md):
+    beyond = lambda x: x > 99.0  # noqa
+    for combo in itertools.product(range(5), repeat=md):
         kw, fns = {}, []
         for ax, ch in enumerate(combo):
             name = ["fx", "fy", "fz"][ax]
+            # 3 / 4: a plane position / a predicate that NO point of the mesh satisfies (with mode="and" the selection is empty)
+            if ch == 3:
+                kw[name] = 7.5
+                fns.append((ax, lambda x: np.isclose(x, 7.5)))
+            elif ch == 4:
+                kw[name] = beyond
+                fns.append((ax, beyond))
             if ch == 1:
                 kw[name] = 0.0
                 fns.append((ax, lambda x: np.isclose(x, 0.0)))
